@@ -1,4 +1,11 @@
-"""C20 - store lock discipline and identifier allocation under concurrent use."""
+"""C20 - store lock discipline and identifier allocation under concurrent use.
+
+Every case (sequential history or threaded schedule) carries `logger`: whether the store singleton is created with a logger
+(`NetworkXGraphImporter[Disjoint](logger=logging.getLogger(...))`, the first importer of the process decides) or without one (the
+default).  What a store method does may depend on it (`if self.log is not None:` branches, e.g. the warning on the per-graph
+store's "graph id already present" early return); every generated case is run in both configurations, and which lines of the
+`self.log`-conditioned branches of the store classes were executed is recorded in the evidence."""
+import ast
 import glob
 import json
 import os
@@ -52,7 +59,7 @@ TRUSTED_BASE = [
 ASSUMPTIONS = ["imported graphs are networkx graphs whose node/edge views are well-formed",
                "no KeyboardInterrupt / MemoryError / SystemExit inside a store method",
                "CPython with the GIL"]
-RULE = ("sequential: histories of 4-12 store calls on 1-3 graph ids incl. failing imports, calls with an unhashable graph id, duplicate "
+RULE = ("every case twice: store singleton created without and with a logger; sequential: histories of 4-12 store calls on 1-3 graph ids incl. failing imports, calls with an unhashable graph id, duplicate "
         "ids, delete-then-reimport, del_all_graphs, non-trivial = at least one failing call or one call on an already-present id; "
         "threaded: 2-3 threads x 1-4 operations (imports, node creation through the API, deletes of one / all graphs, reads, failing "
         "calls), every line of the store and every element of an unlocked node scan a preemption point, non-trivial = at least one "
@@ -94,6 +101,54 @@ SEQ_CORNERS = [
 ]
 
 
+def both_configs(cases):
+    """every case with a store singleton created without and with a logger (a case that already says which keeps its own)"""
+    out = []
+    for c in cases:
+        if "logger" in c:
+            out.append(c)
+        else:
+            out.append(dict(c, logger=False))
+            out.append(dict(c, logger=True))
+    return out
+
+
+def logger_of(case):
+    return L.store_logger() if case.get("logger") else None
+
+
+COVER = {False: set(), True: set()}     # source lines of the store files executed under each configuration
+
+
+def log_branches():
+    """the branches of the store classes conditioned on `self.log`: [(flavour, method, first line of the arm, lines of the arm)]"""
+    out = []
+    for fl, rg in rep()["ranges"].items():
+        path = os.path.realpath(os.path.join(L.REPO, rg["file"]))
+        with open(path) as f:
+            tree = ast.parse(f.read())
+        for n in ast.walk(tree):
+            if not isinstance(n, ast.If) or not (rg["first"] <= n.lineno <= rg["last"]):
+                continue
+            if not any(isinstance(x, ast.Attribute) and x.attr == "log" and isinstance(x.value, ast.Name) and x.value.id == "self"
+                       for x in ast.walk(n.test)):
+                continue
+            meth = next((m for m, (a, b) in rg["methods"].items() if a <= n.lineno <= b), "?")
+            for arm in (n.body, n.orelse):
+                lines = sorted({x.lineno for st in arm for x in ast.walk(st) if hasattr(x, "lineno")})
+                if lines:
+                    out.append((fl, meth, lines[0], [(path, ln) for ln in lines]))
+    return out
+
+
+def count_log_branches(res):
+    """which arms of the `self.log`-conditioned branches the cases of this run reached (in either configuration)"""
+    for fl, meth, first, lines in log_branches():
+        hit = [cfg for cfg in (False, True) if any(x in COVER[cfg] for x in lines)]
+        res.count("log-branch:%s.%s:line%d:%s" % (fl, meth, first, "reached-" + "+".join("logger" if c else "no-logger" for c in hit)
+                                                   if hit else "NOT-REACHED"))
+
+
 def gen_seq(rng, n):
     cases = []
     for fl in ("shared", "disjoint"):
@@ -124,6 +179,10 @@ THR_CORNERS = [
 ]
 
 
+# two threads importing under an id that is already present (the per-graph store's early return, with its warning)
+DUP_CORNER = ([["add_graph", 1, 2]], [[["add_graph", 1, 3]], [["add_graph", 1, 1], ["add_blank", 1, 1]]])
+
+
 def gen_thr_case(rng):
     nthreads = 2 if rng.random() < 0.7 else 3
     setup = [["add_graph", 1, rng.randrange(1, 3)]] if rng.random() < 0.5 else []
@@ -143,7 +202,7 @@ def gen_thr_case(rng):
 def run_seq(case):
     """-> (per-op results, calls with their traces, snapshot, recorder)"""
     rec = L.Recorder(rep())
-    imp, lock = L.fresh_store(case["flavour"], rec)
+    imp, lock = L.fresh_store(case["flavour"], rec, logger_of(case))
     results = []
     rec.start(0)
     try:
@@ -156,6 +215,7 @@ def run_seq(case):
                 lock.owner = None
     finally:
         rec.stop()
+    COVER[bool(case.get("logger"))] |= rec.lines
     graphs = sorted({op[1] for op in case["ops"]})
     return results, rec, L.snapshot(case["flavour"], imp, lock, graphs), imp
 
@@ -203,8 +263,10 @@ def impl_sched_view(r):
 
 
 def run_thr(case):
-    r = L.run_threads(rep(), case["flavour"], case["threads"], L.decide_from(case.get("decisions", []), None), case.get("setup", ()))
+    r = L.run_threads(rep(), case["flavour"], case["threads"], L.decide_from(case.get("decisions", []), None), case.get("setup", ()),
+                      logger_of(case))
     r["flavour"] = case["flavour"]
+    COVER[bool(case.get("logger"))] |= r["rec"].lines
     return r
 
 
@@ -415,7 +477,8 @@ def correspondence(ctx, res):
     sink = Result()      # property violations are the oracle's business, not the correspondence's
     # (i) sequential histories: every call's observed trace is a path of its skeleton; lock model = real lock
     seq_cases = [c for c in corpus_cases() if c["kind"] == "seq"] + gen_seq(rng, ctx.scale(120, 1500))
-    for case in seq_cases:
+    for case in both_configs(seq_cases):
+        res.count("store-created-%s-logger" % ("with" if case["logger"] else "without"))
         results, rec, snap, views = eval_seq(case, sink)
         for v in views:
             reqs.append(path_request(v))
@@ -438,7 +501,8 @@ def correspondence(ctx, res):
         setup, threads = gen_thr_case(rng)
         dec = [rng.randrange(len(threads)) for _ in range(rng.randrange(20, 200))]
         thr_cases.append({"kind": "thr", "flavour": rng.choice(("shared", "disjoint")), "setup": setup, "threads": threads, "decisions": dec})
-    for case in thr_cases:
+    for case in both_configs(thr_cases):
+        res.count("store-created-%s-logger" % ("with" if case["logger"] else "without"))
         r, views, payload = eval_thr(case, sink)
         reqs.append(sched_request(r, len(case["threads"])))
         impl.append(impl_sched_view(r))
@@ -454,16 +518,19 @@ def correspondence(ctx, res):
     # (iii) exhaustive exploration up to the preemption bound on small programs
     bound = ctx.scale(1, 2)
     budget = ctx.scale(150, 2500)
-    for fl in ("shared", "disjoint"):
-        for setup, threads in THR_CORNERS[:ctx.scale(2, 5)]:
-            def visit(r, fl=fl, setup=setup, threads=threads):
+    for fl, lg in (("shared", False), ("disjoint", True), ("disjoint", False), ("shared", True)):
+        for setup, threads in THR_CORNERS[:ctx.scale(2, 5)] + [DUP_CORNER]:
+            if lg and not ctx.thorough and (setup, threads) != DUP_CORNER:
+                continue                    # quick tier: with a logger only the corner that reaches a logger-conditioned branch
+            def visit(r, fl=fl, setup=setup, threads=threads, lg=lg):
                 r["flavour"] = fl
+                COVER[lg] |= r["rec"].lines
                 reqs.append(sched_request(r, len(threads)))
                 impl.append(impl_sched_view(r))
-                cases.append({"case": {"kind": "thr", "flavour": fl, "setup": setup, "threads": threads,
+                cases.append({"case": {"kind": "thr", "flavour": fl, "setup": setup, "threads": threads, "logger": lg,
                                        "decisions": [d[1] for d in r["log"]]}})
-                res.count("explored:%s" % fl)
-            runs, done = L.explore(rep(), fl, threads, bound, budget, setup, visit)
+                res.count("explored:%s:%s" % (fl, "logger" if lg else "no-logger"))
+            runs, done = L.explore(rep(), fl, threads, bound, budget, setup, visit, L.store_logger() if lg else None)
             res.count("explore-exhausted" if done else "explore-budget-hit")
     # (iv) every public method the two store classes have today is in the model's tables, with the same locking kind (a method
     #      added to a store shows up in the regenerated tables by itself; when the translator fell back to the tables of the
@@ -506,42 +573,43 @@ def correspondence(ctx, res):
 
 def oracle(ctx, res, scale=1):
     rng = ctx.sub_rng("oracle")
-    for case in corpus_cases():
+    for case in both_configs(corpus_cases()):
         (eval_seq if case["kind"] == "seq" else eval_thr)(case, res)
         res.count("corpus")
-    for case in gen_seq(rng, ctx.scale(200, 2500) * scale):
+    for case in both_configs(gen_seq(rng, ctx.scale(200, 2500) * scale)):
         results, rec, snap, views = eval_seq(case, res)
         if any(r[0] == "err" for r in results):
             res.nontrivial.add(canon(case))
-        res.count("seq:" + case["flavour"])
+        res.count("seq:%s:%s" % (case["flavour"], "logger" if case["logger"] else "no-logger"))
     for fl in ("shared", "disjoint"):
-        for setup, threads in THR_CORNERS:
+        for setup, threads in THR_CORNERS + [DUP_CORNER]:
             for s in range(ctx.scale(5, 40)):
                 dec = [rng.randrange(len(threads)) for _ in range(150)]
-                eval_thr({"kind": "thr", "flavour": fl, "setup": setup, "threads": threads, "decisions": dec}, res)
+                for case in both_configs([{"kind": "thr", "flavour": fl, "setup": setup, "threads": threads, "decisions": dec}]):
+                    eval_thr(case, res)
     for i in range(ctx.scale(300, 4000) * scale):
         setup, threads = gen_thr_case(rng)
         dec = [rng.randrange(len(threads)) for _ in range(rng.randrange(20, 200))]
-        case = {"kind": "thr", "flavour": rng.choice(("shared", "disjoint")), "setup": setup, "threads": threads, "decisions": dec}
-        r, views, payload = eval_thr(case, res)
-        res.count("thr:%s:%d" % (case["flavour"], len(threads)))
-        if L.preemptions(r["log"]) > 0:
-            res.nontrivial.add(canon(payload))
+        base = {"kind": "thr", "flavour": rng.choice(("shared", "disjoint")), "setup": setup, "threads": threads, "decisions": dec}
+        for case in both_configs([base]):
+            r, views, payload = eval_thr(case, res)
+            res.count("thr:%s:%d:%s" % (case["flavour"], len(threads), "logger" if case["logger"] else "no-logger"))
+            if L.preemptions(r["log"]) > 0:
+                res.nontrivial.add(canon(payload))
     # exhaustive within the preemption bound
     bound = ctx.scale(1, 2)
-    for fl in ("shared", "disjoint"):
-        for setup, threads in THR_CORNERS[:ctx.scale(3, 6)]:
-            seen = []
-
-            def visit(r, fl=fl, setup=setup, threads=threads):
-                # the run already happened inside explore; evaluate the property on it
-                pass
+    for fl, lg in (("shared", False), ("disjoint", False), ("disjoint", True), ("shared", True)):
+        for setup, threads in THR_CORNERS[:ctx.scale(3, 6)] + [DUP_CORNER]:
+            if lg and not ctx.thorough and (setup, threads) != DUP_CORNER:
+                continue                    # quick tier: with a logger only the corner that reaches a logger-conditioned branch
             # explore needs the property evaluated per run: re-run each explored schedule through eval_thr
             decisions = []
-            L.explore(rep(), fl, threads, bound, ctx.scale(120, 2500), setup, lambda r: decisions.append([d[1] for d in r["log"]]))
+            L.explore(rep(), fl, threads, bound, ctx.scale(120, 2500), setup, lambda r: decisions.append([d[1] for d in r["log"]]),
+                      L.store_logger() if lg else None)
             for dec in decisions:
-                eval_thr({"kind": "thr", "flavour": fl, "setup": setup, "threads": threads, "decisions": dec}, res)
-                res.count("explored:%s" % fl)
+                eval_thr({"kind": "thr", "flavour": fl, "setup": setup, "threads": threads, "decisions": dec, "logger": lg}, res)
+                res.count("explored:%s:%s" % (fl, "logger" if lg else "no-logger"))
+    count_log_branches(res)
     res.sample({"oracle": "per call: lock acquired once / released once / free afterwards; after join: per-graph NodeID sets equal the "
                           "serial specification in lock-acquisition order; ids handed out by add_blank_node_to_graph distinct"})
 
